@@ -1,5 +1,5 @@
 (* C12 - Size and range limits are exact; accepted values are never altered to fit. *)
-From Ctap Require Import Base Schema Wire Utf8 Typed Procs Inst Tables Limits WireP TypedP FramingP.
+From Ctap Require Import Base Schema Wire Utf8 Typed Procs Inst Tables Limits WireP TypedP FramingP ObRequestSide.
 Local Open Scope string_scope.
 Local Open Scope Z_scope.
 
